@@ -19,6 +19,7 @@ type Schema struct {
 	ReferenceFormatter func(ref ast.RefType) string
 
 	foreignObjects     *orderedmap.Map[string, ast.Object]
+	inlinedObjects     map[string]struct{}
 	referenceResolver  func(ref ast.RefType) (ast.Object, bool)
 	isForeignReference func(ref ast.RefType) bool
 }
@@ -56,6 +57,7 @@ func (jenny Schema) toJSON(input any) ([]byte, error) {
 
 func (jenny Schema) GenerateSchema(context languages.Context, schema *ast.Schema) Definition {
 	jenny.foreignObjects = orderedmap.New[string, ast.Object]()
+	jenny.inlinedObjects = make(map[string]struct{})
 
 	jenny.isForeignReference = func(ref ast.RefType) bool {
 		return ref.ReferredPkg != schema.Package
@@ -240,7 +242,13 @@ func (jenny Schema) formatRef(typeDef ast.Type) Definition {
 		referredObject, found := jenny.referenceResolver(ref)
 
 		if found {
-			jenny.foreignObjects.Set(referredObject.SelfRef.String(), referredObject)
+			// a foreign object is inlined once: objects that (transitively) refer to
+			// themselves would otherwise be queued forever.
+			key := referredObject.SelfRef.String()
+			if _, done := jenny.inlinedObjects[key]; !done {
+				jenny.inlinedObjects[key] = struct{}{}
+				jenny.foreignObjects.Set(key, referredObject)
+			}
 		}
 	}
 
